@@ -131,3 +131,66 @@ From GoUpf Require LookupGen LookupShape.
 Theorem C09_send_order_source_shape : (LookupGen.remote_sess_conds, LookupGen.sendreq_body) = LookupShape.lookup_model_shape.
 Proof. exact LookupShape.lookup_shape_ok. Qed.
 Print Assumptions C09_send_order_source_shape.
+
+(* ---------------------------------------------------------------- a first transmission that fails in the socket
+   (event EvReportWF: the report is served while every write on the PFCP socket fails).  sendReqTo registers the request
+   before it writes and only logs the error of the write (statement order regenerated: C09_send_order_source_shape), so: *)
+From GoUpf Require WriteFail.
+
+(* the state after the failed transmission is the state after a successful one; only the emission is missing *)
+Theorem C09_failed_write_same_state : forall w seid items e w' o,
+  step w (EvReport seid items e) = Ok (w', o) ->
+  step w (EvReportWF seid items e) = Ok (w', drop_sends o) /\ (forall d p r, ~ In (OSend d p r) (drop_sends o)).
+Proof. intros w seid items e w' o H. split; [apply WriteFail.write_failure_same_state; exact H | intros d p r; apply WriteFail.drop_sends_no_send]. Qed.
+Print Assumptions C09_failed_write_same_state.
+
+(* the request is outstanding under the counter's value (retry count 0, counter advanced modulo 2^24) although
+   nothing left the socket ... *)
+Theorem C09_failed_write_still_registered : forall w seid s n usars e,
+  reachable w -> live w seid s -> nth_error (w_heap w) (s_node s) = Some n -> usars <> [] ->
+  exists w' p,
+    step w (EvReportWF seid (map RUsa usars) e) = Ok (w', []) /\
+    klookup (n_id n, w_txseq w) (w_tx w') = Some (mkTx p 0 (s_rid s)) /\
+    w_txseq w' = (w_txseq w + 1) mod 16777216.
+Proof. intros w seid s n usars e Hr. apply WriteFail.failed_write_still_registered. apply reachable_inv. exact Hr. Qed.
+Print Assumptions C09_failed_write_still_registered.
+
+(* ... its first expiry sends the stored datagram (budget > 0) or abandons it (budget 0) ... *)
+Theorem C09_failed_write_then_expiry : forall w seid s n usars e,
+  reachable w -> live w seid s -> nth_error (w_heap w) (s_node s) = Some n -> usars <> [] ->
+  exists w' p, step w (EvReportWF seid (map RUsa usars) e) = Ok (w', []) /\
+    (0 < w_maxretrans w' ->
+       exists w'', step w' (EvTimeoutTx (n_id n) (w_txseq w)) = Ok (w'', [OSend (n_id n) p true])) /\
+    (w_maxretrans w' = 0 ->
+       exists w'', step w' (EvTimeoutTx (n_id n) (w_txseq w)) = Ok (w'', []) /\ klookup (n_id n, w_txseq w) (w_tx w'') = None).
+Proof. intros w seid s n usars e Hr. apply WriteFail.failed_write_then_expiry. apply reachable_inv. exact Hr. Qed.
+Print Assumptions C09_failed_write_then_expiry.
+
+(* ... and a response with that number from that peer retires it (C09_stop_on_response applies: the state is reachable) *)
+Theorem C09_failed_write_then_response : forall w seid s n usars e m e',
+  reachable w -> live w seid s -> nth_error (w_heap w) (s_node s) = Some n -> usars <> [] -> is_request m = false ->
+  exists w' w'' o,
+    step w (EvReportWF seid (map RUsa usars) e) = Ok (w', []) /\
+    step w' (EvRecv (n_id n) (w_txseq w) m e') = Ok (w'', o) /\
+    klookup (n_id n, w_txseq w) (w_tx w'') = None /\ (forall d p r, In (OSend d p r) o -> False).
+Proof.
+  intros w seid s n usars e m e' Hr HL Hn Hne Hm.
+  destruct (WriteFail.failed_write_still_registered w seid s n usars e (reachable_inv _ Hr) HL Hn Hne) as [w' [p [E [K _]]]].
+  assert (Hr' : reachable w') by (eapply reach_step; eauto).
+  destruct (tx_response_releases w' (n_id n) (w_txseq w) m e' _ Hr' Hm K) as [w'' [o [E2 [K2 S]]]].
+  exists w', w'', o. auto.
+Qed.
+Print Assumptions C09_failed_write_then_response.
+
+Example C09_failed_write_nonvacuous :
+  match run (init 16777215 1)
+    [EvRecv 0 1 (MAssocSetup (IeVal 0) []) (mkEnv [] []);
+     EvRecv 0 2 (MEst (IeVal 0) (IeVal 10) (mkOps [] [] [] [] [] [] [] [] [] [] [] [] [] [] [] [])) (mkEnv [] []);
+     EvReportWF 1 [RDld 1 12 [1]] (mkEnv [] []); EvReport 1 [RDld 1 12 [2]] (mkEnv [] []);
+     EvTimeoutTx 0 16777215; EvRecv 0 16777215 (MReportRsp 10) (mkEnv [] []); EvTimeoutTx 0 16777215] with
+  | Ok (w, os) => skipn 2 os = [[]; [OSend 0 (PReportDLDR 0 10 1) false];
+                                [OSend 0 (PReportDLDR 16777215 10 1) true]; []; []] /\
+                  map fst (w_tx w) = [(0, 0)] /\ w_txseq w = 1
+  | Fault _ => False
+  end.
+Proof. vm_compute. repeat split; reflexivity. Qed.
